@@ -251,7 +251,20 @@ def equivalence(ck, prog, pr, seed, fact):
     fce = prog.struct_fields.get('clockbound_err', [])
     prior_e = {'kind': Enum(z3.Int('ctxerr_prior_kind'), {}), 'errno': z3.Int('ctxerr_prior_errno')}
     err0 = Struct([prior_e.get(n, Opaque('ctxerr_prior_' + n)) for n in fce]) if fce else Opaque('err0')
-    st = State(); st.mem[(0, 'ctx')] = Struct([err0, Opaque('reader')]); st.mem[(0, 'res')] = Opaque('res')
+    # any further per-context state the library keeps between calls is arbitrary (whatever earlier calls left there)
+    from mirsym.seqlock import symbolic_of_type
+    cnames = prog.struct_fields.get('clockbound_ctx') or ['err', 'reader']
+    ctys = prog.struct_field_types.get('clockbound_ctx') or []
+    cvals = []
+    for i, n in enumerate(cnames):
+        if n == 'err':
+            cvals.append(err0)
+        elif n == 'reader':
+            cvals.append(Opaque('reader'))
+        else:
+            sv = symbolic_of_type(exc, ctys[i], 'ctx_' + n) if i < len(ctys) else None
+            cvals.append(sv if sv is not None else Opaque('ctx_' + n))
+    st = State(); st.mem[(0, 'ctx')] = Struct(cvals); st.mem[(0, 'res')] = Opaque('res')
     outs_c = [o for o in exc.run(f_now_c, [Ref(0, 'ctx'), Opaque('resptr')], st) if o.kind == 'return']
     # Rust
     f_now_r = prog.find1('now', self_ty='ClockBoundClient', crate='clock_bound_client')
@@ -415,14 +428,15 @@ def native_compare(ck, spec):
         f = dict(x.split('=', 1) for x in o.split()[1:] if '=' in x)
         if f.get('rust') != f.get('c'):
             bad.append('scenario "%s" (the caller\'s clockbound_err held errno 2 from a previous call): Rust client -> %s, C library -> %s' % (s3, f.get('rust'), f.get('c')))
-    scen2 = ['none', 'oddgen', 'zerover']
+    scen2 = ['none', 'oddgen', 'zerover', 'growbound']
     for s2 in scen2:
         o = rp.ask('abi2 ' + s2)
         res['abi2 ' + s2] = o
         f = dict(x.split('=', 1) for x in o.split()[1:] if '=' in x)
         if not o.startswith('ok') or f.get('rust') != f.get('c'):
             bad.append('both clients opened on a consistent segment, then %s, then now(): Rust client -> %s, C library -> %s' % (
-                {'none': 'nothing changed', 'oddgen': 'the generation became odd (update in flight)', 'zerover': 'the version was zeroed (segment wiped)'}[s2], f.get('rust', o), f.get('c')))
+                {'none': 'nothing changed', 'oddgen': 'the generation became odd (update in flight)', 'zerover': 'the version was zeroed (segment wiped)',
+                 'growbound': 'both answered once, then a record with a much larger bound was published'}[s2], f.get('rust', o), f.get('c')))
     rp.close()
     ck.cov['native_cross_check'] = {'scenarios': len(scen) + 1 + len(scen2), 'disagreements': len(bad)}
     ck.cov['traces_validated_against_impl'] = len(scen) + 1 + len(scen2)
